@@ -783,6 +783,14 @@ func (e *Angine) RecoverFromCrash(appHash []byte, appBlockHeight int64) error {
 	log.Info("Replay Blocks", zap.Int64("appHeight", appBlockHeight), zap.Int64("storeHeight", storeBlockHeight), zap.Int64("stateHeight", stateBlockHeight))
 
 	if storeBlockHeight < appBlockHeight {
+		if appBlockHeight == storeBlockHeight+1 && storeBlockHeight == stateBlockHeight &&
+			e.blockstore.LoadBlockMeta(appBlockHeight) != nil {
+			// The application committed block store+1 and the process died before the state was
+			// saved. The block is on disk (the blockchain reactor has only stepped the store back
+			// to the state's height); consensus re-commits it from its log and the application
+			// executes it again from the app hash the block names.
+			return nil
+		}
 		// if the app is ahead, there's nothing we can do
 		return state.ErrAppBlockHeightTooHigh{CoreHeight: storeBlockHeight, AppHeight: appBlockHeight}
 	} else if storeBlockHeight == appBlockHeight {
